@@ -1,7 +1,7 @@
 """Property id -> check entry."""
 from __future__ import annotations
 
-from . import common, runner
+from . import common, runner, tlc
 
 
 class PureEntry:
@@ -276,6 +276,46 @@ def _curve():
                         "points, bounds monotone outwards, the flat part is non-empty")
 
 
+def _fit():
+    return runner.PureSpec(
+        prop="C12", module="Fit", trace_module="FitTrace", driver="drivers.fit",
+        cfg={"quick": "Fit_quick.cfg", "thorough": "Fit_thorough.cfg"}, sample={"quick": None, "thorough": None}, variants=lambda tier, r, cin: ["-"],
+        spec_files=["Fit.tla", "FitDefs.tla", "FitTrace.tla"],
+        rule="real fits of every (family, profile) x dataset (heating+cooling, other curve, seasonal regimes, closed weekends, flat, heating-only, "
+             "cooling-only; thorough adds noisy, outliers, 330 days, balance points near the range ends and the default profile); every candidate "
+             "component and every sub-model of the chosen split is projected; non-trivial = the fit has a temperature-dependent component",
+        assumptions=["the quantifier over datasets is sampled; the quantifier over optimiser outcomes is exhaustive on the grid of CurveImpl.tla (structural leads)",
+                     "relations are evaluated on the exact doubles by drivers/fit.py; curve identity uses max|eval(T) - model| <= 1e-9 x scale",
+                     "the raw optimiser vector comes from the guarded hook (OPENDSM_EEMETER_VERIF=1) and is used only to classify a curve mismatch"],
+        invariants_note="MC config checks the type table (injective; smooth types are exactly those carrying a k).  The structural I-layer CurveImpl.tla is "
+                        "model-checked separately by this check: its violations are counted as leads in the evidence")
+
+
+class C12Entry:
+    def run(self, tier):
+        # structural half: the refine / reduce / read-back chain on exact rationals; violations are leads, not verdicts
+        res = tlc.run("CurveImpl", "CurveImpl.cfg", "curveimpl", cont=True, timeout=1800)
+        leads = len(res.violations) // 2
+        rc = runner.run_pure(_fit(), tier)
+        import json as _json, os as _os
+        path = _os.path.join(common.EVID, "C12.json")
+        doc = _json.load(open(path))
+        doc["coverage"]["structural_model"] = {"module": "CurveImpl.tla", "raw_vectors": res.distinct // 2, "states": res.distinct,
+                                               "curve_identity_leads_in_box": leads, "note": "raw optimiser vectors of the smoothed full model for which the evaluation "
+                                               "path and the read-back path reach different pieces (classes: dead side with k, balance point on a bound, crossed)"}
+        doc["coverage"]["states"] += res.distinct
+        doc["coverage"]["transitions"] += res.generated
+        common.write_evidence("C12", doc["tier"], doc["coverage"], doc["wall_s"] + res.wall, doc["violations"], doc["assumptions"])
+        print("C12 %s: structural model CurveImpl: %d raw vectors, %d curve-identity leads (information)" % (tier, res.distinct // 2, leads))
+        return rc
+
+    def replay(self, payload):
+        return runner.run_pure(_fit(), "quick", only_cases=[payload["case"]])
+
+    def selftest(self):
+        return runner.selftest_pure(_fit())
+
+
 class C07Entry:
     """C07 = RowFrame (row-level masking, daily and billing) + the aggregated-column clauses of Agg (billing aggregations)."""
     OWN_AGG = {"ObservedIsSumOfDailyRows", "PredictedIsSumOfDailyRows", "SavingsFromAggregatedColumnsEqualRowwiseSavings", "ObservedColumnKept"}
@@ -333,7 +373,7 @@ class LifeEntry:
         return lifeprops.selftest(self.prop)
 
 
-_REG = {"C20": lambda: PureEntry(_window()), "C07": lambda: C07Entry(), "C19": lambda: PureEntry(_agg()), "C06": lambda: C06Entry(), "C18": lambda: PureEntry(_seg()), "C14": lambda: PureEntry(_settings()), "C10": lambda: PureEntry(_suff()), "C13": lambda: PureEntry(_split()), "C17": lambda: PureEntry(_prep()), "C16": lambda: PureEntry(_metrics()), "C11": lambda: PureEntry(_curve())}
+_REG = {"C20": lambda: PureEntry(_window()), "C07": lambda: C07Entry(), "C19": lambda: PureEntry(_agg()), "C06": lambda: C06Entry(), "C18": lambda: PureEntry(_seg()), "C14": lambda: PureEntry(_settings()), "C10": lambda: PureEntry(_suff()), "C13": lambda: PureEntry(_split()), "C17": lambda: PureEntry(_prep()), "C16": lambda: PureEntry(_metrics()), "C11": lambda: PureEntry(_curve()), "C12": lambda: C12Entry()}
 for _p in ("C01", "C02", "C03", "C04", "C05"):
     _REG[_p] = (lambda p: (lambda: LifeEntry(p)))(_p)
 
